@@ -1243,6 +1243,54 @@ class Engine(Executor):
         f = z3.Function("str_strip", z3.StringSort(), z3.StringSort())
         return [(st, SV(mk_s(f(Sc.sv(v.t))), "str"))]
 
+    def b_str_format(self, st, args, kwargs, fn):
+        """'...{}...{name}...{0}'.format(...) with a literal format string and plain fields (no conversion, no format
+        spec): the same text as the corresponding f-string"""
+        import string
+        v: SV = fn.bound
+        lit = z3.simplify(Sc.sv(v.t))
+        if not z3.is_string_value(lit):
+            raise Unsupported("str.format on a format string that is not a literal")
+        skeleton: List[str] = [""]
+        holes: List[Any] = []
+        auto = 0
+        for text, field, spec, conv in string.Formatter().parse(lit.as_string()):
+            skeleton[-1] += text
+            if field is None:
+                continue
+            if spec or conv:
+                raise Unsupported("str.format with a conversion or a format spec")
+            if field == "":
+                if auto >= len(args):
+                    return [self.raise_(st, "IndexError", sv_str("Replacement index out of range"))]
+                holes.append(args[auto])
+                auto += 1
+            elif field.isdigit():
+                if int(field) >= len(args):
+                    return [self.raise_(st, "IndexError", sv_str("Replacement index out of range"))]
+                holes.append(args[int(field)])
+            elif field.isidentifier():
+                if field not in kwargs:
+                    return [self.raise_(st, "KeyError", sv_str(field))]
+                holes.append(kwargs[field])
+            else:
+                raise Unsupported("str.format with attribute / index fields")
+            skeleton.append("")
+        hook = getattr(self, "fstring_hook", None)
+        if hook is not None and holes:
+            r = hook(self, st, tuple(skeleton), holes)
+            if r is not None:
+                return [(st, r)]
+        terms: List[Any] = []
+        for i, piece in enumerate(skeleton):
+            if piece:
+                terms.append(z3.StringVal(piece))
+            if i < len(holes):
+                terms.append(self.to_str(st, holes[i]))
+        if not terms:
+            return [(st, sv_str(""))]
+        return [(st, SV(mk_s(terms[0] if len(terms) == 1 else z3.Concat(*terms)), "str"))]
+
     def b_str_replace(self, st, args, kwargs, fn):
         v: SV = fn.bound
         f = z3.Function("str_replace_all", z3.StringSort(), z3.StringSort(), z3.StringSort(), z3.StringSort())
